@@ -191,8 +191,9 @@ theorem walLevel_name (n : Nat) (h : n ≤ 2) : Model.walLevelName n = Spec.walL
   rcases this with h | h | h <;> subst h <;> rfl
 
 /-- ParseControlFile on the encoding of well-formed control data returns the stored fields -/
-theorem parseControlFile_enc (c : ControlData) (h : c.WF) (crc pad : Nat) (hcrc : crc < 2 ^ 32) :
-    ∃ f, Model.parseControlFile (encControl c crc pad) = .ok (some f) ∧ f.toView = viewControl c crc := by
+theorem parseControlFile_enc_full (c : ControlData) (h : c.WF) (crc pad : Nat) (hcrc : crc < 2 ^ 32) :
+    ∃ f, Model.parseControlFile (encControl c crc pad) = .ok (some f) ∧ f.toView = viewControl c crc ∧
+      f.pgVersionMajor = Model.inferPGVersion c.pgControlVersion c.catalogVersionNo := by
   obtain ⟨_, _, _, ⟨hs1, hs2⟩, _, hckpt, hredo, _, _, _, _, _, _, _, _, _, _, _, ⟨ht1, ht2⟩, _, _, _, _, _, _, _, _,
     hwl, hmc, hmw, hms, hmp, hml, _, _, hblk, ⟨_, _⟩, hxblk, hseg, _, _, _, _, _, _⟩ := h
   have hblk' : c.blcksz ≠ 0 ∧ c.blcksz < 2 ^ 32 := by
@@ -301,10 +302,15 @@ theorem parseControlFile_enc (c : ControlData) (h : c.WF) (crc pad : Nat) (hcrc 
   simp only [ok_bind]
   rw [if_pos (by omega)]
   simp only [ok_bind]
-  refine ⟨_, rfl, ?_⟩
+  refine ⟨_, rfl, ?_, rfl⟩
   simp only [Model.ControlFile.toView, viewControl, toSigned_ofSigned32 _ hs1 hs2, toSigned_ofSigned64 _ ht1 ht2,
     dbStateString_eq, ctlFormatLSN_eq _ hckpt, ctlFormatLSN_eq _ hredo, b2n_ne_zero, walLevel_name _ hwl,
     toSigned32_nat _ hmc, toSigned32_nat _ hmw, toSigned32_nat _ hms, toSigned32_nat _ hmp, toSigned32_nat _ hml,
     verifyCRC32C_eq, Model.floatIs1234567, floatFormatBits]
+
+theorem parseControlFile_enc (c : ControlData) (h : c.WF) (crc pad : Nat) (hcrc : crc < 2 ^ 32) :
+    ∃ f, Model.parseControlFile (encControl c crc pad) = .ok (some f) ∧ f.toView = viewControl c crc := by
+  obtain ⟨f, h1, h2, _⟩ := parseControlFile_enc_full c h crc pad hcrc
+  exact ⟨f, h1, h2⟩
 
 end PgVerif.Proofs
